@@ -755,6 +755,7 @@ package xpath
 //@   theory nav for C01
 //@   captures[same-test@C01] q == nil || q.Predicate == f.Predicate
 //@   ensures[passes-test@C01] result != nil ==> predv(f.Predicate, pos(result))
+//@   creation[not-from-attribute@C01] kind(pos(node)) != 2     // an attribute start is first moved to its element, whose descendants follow it
 //@ func (*followingQuery).Select$2$1
 //@   props C15
 //@   conforms type iteratorFunc
@@ -2314,7 +2315,7 @@ package xpath
 //@ func (*followingQuery).Select
 //@   props C15 C13 C01 C12
 //@   theory stream for C13 C01 C12
-//@   uses one-document
+//@   uses one-document tree-kinds tree-parent
 //@   loop * invariant[cursor@C13] cur(t) == old(cur(t)) && pos(cur(t)) == old(pos(cur(t)))
 //@   ensures[drains-input@C01] result == nil ==> k(f.Input) == slen(ref(f.Input), epoch(f.Input))
 //@   assume[absb-def] absb(ref(f)) == absb(ref(f.Input))
